@@ -1,6 +1,9 @@
 """Runs the real outrank_task_result_summary on generated pairwise_ranks.tsv files
 (under /venv/bin/python, PYTHONPATH=$OUTRANK_REPO).  JSON on stdin, one @@RESULT line.
-Each case: {"rows": [[FeatureA, FeatureB, "score text"], ...], "label": str, "heuristic": str, "order": int}."""
+Each case: {"rows": [[FeatureA, FeatureB, "score text"], ...], "calls": [{"label", "heuristic", "order", "tldr"}, ...]}
+(or the single-call form with label / heuristic / order at the top, tldr False).  All calls of a case run one after the other
+on the SAME output folder (pairwise_ranks.tsv written once, dated into the past as after a real ranking run); the two summary
+files are read back after every call."""
 import io
 import json
 import os
@@ -55,7 +58,7 @@ def make_args(case, folder):
     ns.label_column = case["label"]
     ns.heuristic = case["heuristic"]
     ns.interaction_order = int(case["order"])
-    ns.tldr = False
+    ns.tldr = case.get("tldr", False)      # 'True' / 'False' (the CLI passes strings: both truthy), True, False, ''
     return ns
 
 
@@ -84,14 +87,25 @@ for i, case in enumerate(payload["cases"]):
         f.write("FeatureA\tFeatureB\tScore\n")
         for a, b, s in case["rows"]:
             f.write("%s\t%s\t%s\n" % (a, b, s))
-    res = {"ok": True}
+    tp = os.path.join(folder, "pairwise_ranks.tsv")
     try:
-        with contextlib.redirect_stdout(io.StringIO()):
-            outrank_task_result_summary(make_args(case, folder))
-        res["singles"] = read_table(os.path.join(folder, "feature_singles.tsv"))
-        res["aggregated"] = read_table(os.path.join(folder, "feature_singles_aggregated.tsv"))
-    except Exception as e:  # an outcome, decided by the harness
-        res = {"ok": False, "error": "%s: %s" % (type(e).__name__, e)}
+        past = os.path.getmtime(tp) - 60.0
+        os.utime(tp, (past, past))
+    except OSError:
+        pass
+    calls = case.get("calls") or [case]
+    results = []
+    for call in calls:
+        res = {"ok": True}
+        try:
+            with contextlib.redirect_stdout(io.StringIO()):
+                outrank_task_result_summary(make_args(call, folder))
+            res["singles"] = read_table(os.path.join(folder, "feature_singles.tsv"))
+            res["aggregated"] = read_table(os.path.join(folder, "feature_singles_aggregated.tsv"))
+        except Exception as e:  # an outcome, decided by the harness
+            res = {"ok": False, "error": "%s: %s" % (type(e).__name__, e)}
+        results.append(res)
+    res = {"calls": results}
     out.append(res)
     shutil.rmtree(folder, ignore_errors=True)
 shutil.rmtree(BASE, ignore_errors=True)
